@@ -49,6 +49,10 @@ pub fn profile(attrs: bool) -> Profile {
     p.unused_structs = (0, 0);
     p.nonascii = 0;
     p.keyword_names = 1;
+    p.overrides = 3;
+    p.ov_sized_array = 5;
+    p.private = 3;
+    p.workgroup = 3;
     p
 }
 
